@@ -14,6 +14,8 @@ FAMILIES = {
     # mirror images (Z -> -Z) of the disconnected ones
     "udn_m": [(1, 0.0), (1, 0.602), (1, -0.6)],
     "udn2_m": [(1, 0.0), (1, 0.62), (1, -0.6)],
+    # connected double null whose X-points sit on slightly different flux surfaces
+    "cdn_pert": [(1, 0.0), (1, -0.6), (1, 0.6005)],
 }
 
 
